@@ -1,11 +1,11 @@
 SPECIFICATION Spec
 CONSTANTS NClients = 2
-FuturesPerClient = 1
-MaxThreads = 2
-Cap = 2
-AllowRetire = TRUE
+FuturesPerClient = 2
+MaxThreads = 1
+Cap = 1
+AllowRetire = FALSE
 FixRetire = TRUE
-FixReset = TRUE
+FixReset = FALSE
 INVARIANTS AtMostOnce JoinAfterDone QueueOK
 PROPERTY Live
 CONSTANT defaultInitValue = defaultInitValue
